@@ -72,7 +72,7 @@ func (f *Map) Call(s *slip.Scope, args slip.List, depth int) (result slip.Object
 	caller := ResolveToCaller(s, fn, d2)
 	seqs := make([]slip.List, len(args)-2)
 	for i, a := range args[2:] {
-		seqs[i] = slip.CoerceToList(a).(slip.List)
+		seqs[i], _ = slip.CoerceToList(a).(slip.List) // nil for nil, the empty list
 	}
 	var rlist slip.List
 	if 1 < len(seqs) {
